@@ -2233,6 +2233,8 @@ func (p *Parser) gotStmtPipe(s *Stmt, binCmd bool) *Stmt {
 			p.curErr(`%#q can only be used to end a loop`, p.val)
 		case "esac":
 			p.curErr("%#q can only be used to end a `case`", p.val)
+		case "in":
+			p.curErr("%#q can only be used in a `for`, `select` or `case`", p.val)
 		case "!":
 			if !s.Negated {
 				p.curErr(`%#q can only be used in full statements`, exclMark)
